@@ -34,4 +34,10 @@ var c06MoreSelfTests = []SelfTest{
 	{Name: "rewrite: sequence drawn into a local inside the loop", Edits: []Edit{
 		{File: "internal/flood/flood.go", Old: "\tfor start := 0; start < len(routes); start += maxRoutesPerMessage {\n\t\tend := start + maxRoutesPerMessage\n\t\tif end > len(routes) {\n\t\t\tend = len(routes)\n\t\t}\n\n\t\twithdraw := &protocol.RouteWithdraw{\n\t\t\tOriginAgent: f.localID,\n\t\t\tSequence:    f.routeMgr.IncrementSequence(),\n\t\t\tRoutes:      routes[start:end],", New: "\tfor start := 0; start < len(routes); start += maxRoutesPerMessage {\n\t\tend := start + maxRoutesPerMessage\n\t\tif end > len(routes) {\n\t\t\tend = len(routes)\n\t\t}\n\n\t\tseq := f.routeMgr.IncrementSequence()\n\t\twithdraw := &protocol.RouteWithdraw{\n\t\t\tOriginAgent: f.localID,\n\t\t\tSequence:    seq,\n\t\t\tRoutes:      routes[start:end],"},
 	}},
+	{Name: "rewrite: forwarded routes copied element by element before sending", Edits: []Edit{
+		{File: "internal/flood/flood.go", Old: "\twithdraw := &protocol.RouteWithdraw{\n\t\tOriginAgent: originAgent,\n\t\tSequence:    sequence,\n\t\tRoutes:      routes,\n", New: "\tfwd := make([]protocol.Route, 0, len(routes))\n\tfor _, rt := range routes {\n\t\tfwd = append(fwd, rt)\n\t}\n\twithdraw := &protocol.RouteWithdraw{\n\t\tOriginAgent: originAgent,\n\t\tSequence:    sequence,\n\t\tRoutes:      fwd,\n"},
+	}},
+	{Name: "forwarding loop duplicates every route", ExpectRule: "C06.R1", ExpectKey: "floodWithdrawal", Edits: []Edit{
+		{File: "internal/flood/flood.go", Old: "\twithdraw := &protocol.RouteWithdraw{\n\t\tOriginAgent: originAgent,\n\t\tSequence:    sequence,\n\t\tRoutes:      routes,\n", New: "\tfwd := make([]protocol.Route, 0, len(routes))\n\tfor _, rt := range routes {\n\t\tfwd = append(fwd, rt)\n\t\tfwd = append(fwd, rt)\n\t}\n\twithdraw := &protocol.RouteWithdraw{\n\t\tOriginAgent: originAgent,\n\t\tSequence:    sequence,\n\t\tRoutes:      fwd,\n"},
+	}},
 }
